@@ -188,7 +188,7 @@ def sortStrings (l : List String) : List String := l.foldr insertSorted []
 /-- announcements of newly reachable objects, then the `S` / `X` / `N` lines -/
 def snapshot (hosts : List Nat) (s : St) : St :=
   let live := walk s (4 * s.objs.length + 16) hosts
-  let fresh := live.filter (fun u => !(s.announced.contains u))
+  let fresh := (live.filter (fun u => !(s.announced.contains u))).eraseDups
   let lines1 := fresh.flatMap (fun u => match s.get? u with | some o => announce s o | none => [])
   let lines2 := live.flatMap (fun u =>
     match s.get? u with
